@@ -549,3 +549,24 @@ func (s *Sim) canon(v reflect.Value) string {
 	}
 	return "?"
 }
+
+// PoolGet replaces (*sync.Pool).Get. What a pool returns depends on garbage collection and on earlier
+// runs in the same process; code that branches on the capacity of a recycled object would make the
+// run irreproducible. Inside a simulation a pool therefore never recycles (always New), which the
+// sync.Pool contract allows.
+func PoolGet(p *sync.Pool) any {
+	if active.Load() == nil {
+		return p.Get()
+	}
+	if p.New != nil {
+		return p.New()
+	}
+	return nil
+}
+
+// PoolPut replaces (*sync.Pool).Put.
+func PoolPut(p *sync.Pool, x any) {
+	if active.Load() == nil {
+		p.Put(x)
+	}
+}
